@@ -220,3 +220,36 @@ def uninstall_nonce():
         K._ssl.ECDSA_sign = _nonce_state['orig']
         _nonce_state['installed'] = False
         _nonce_state['src'] = None
+
+
+# ------------------------------------------------------------------ the platform's OpenSSL
+
+class NoLegacyDigests:
+    """An interpreter linked against OpenSSL 3 without the legacy provider (stock on several distributions):
+    `hashlib.algorithms_available` still lists ripemd160, `hashlib.new('ripemd160')` raises ValueError.  The
+    failure is injected for calls made from the library's own source files only (the reference models keep
+    their hashlib)."""
+    NAMES = {'ripemd160', 'rmd160', 'ripemd', 'md4', 'whirlpool', 'mdc2'}
+
+    def __enter__(self):
+        import hashlib
+        self.hashlib = hashlib
+        self.orig = hashlib.new
+        root = os.path.join(os.path.realpath(REPO), 'bitcoin') + os.sep
+        orig = self.orig
+        names = self.NAMES
+        self.fired = 0
+
+        def new(name, *a, **kw):
+            if str(name).lower() in names:
+                f = sys._getframe(1)
+                if os.path.realpath(f.f_code.co_filename).startswith(root):
+                    self.fired += 1
+                    raise ValueError('unsupported hash type %s' % name)
+            return orig(name, *a, **kw)
+        hashlib.new = new
+        return self
+
+    def __exit__(self, *exc):
+        self.hashlib.new = self.orig
+        return False
